@@ -2,10 +2,10 @@ package absint
 
 import (
 	"fmt"
-	"os"
 	"go/constant"
 	"go/token"
 	"go/types"
+	"os"
 	"sort"
 	"strings"
 
@@ -63,25 +63,27 @@ type Outcome struct {
 }
 
 type Interp struct {
-	P        *core.Program
-	Atoms    *AtomTable
-	Cfg      Config
-	regionN  int
-	cellN    int
-	emptyReg *Region
-	stack    []*ssa.Function
-	steps    int
-	Exceeded bool
-	Notes    map[string]int // externals encountered (assumed not to panic), joins, havocs
-	sink     func(Finding)
-	bufs     [][]Finding // loop-iteration buffers
-	globals  map[*ssa.Global]*Cell
-	gslice   map[*ssa.Global]int64 // constant length of never-reassigned global slices
-	gerr     map[*ssa.Global]bool  // sentinel error globals (single init store from errors.New/fmt.Errorf)
-	fieldLen map[string]int64      // struct fields of slice type only ever assigned make([]T, const)
-	poolType map[*ssa.Global]types.Type
-	instance int
-	StepsByFn map[string]int // debug histogram
+	P           *core.Program
+	Atoms       *AtomTable
+	Cfg         Config
+	regionN     int
+	cellN       int
+	emptyReg    *Region
+	stack       []*ssa.Function
+	steps       int
+	Exceeded    bool
+	Notes       map[string]int // externals encountered (assumed not to panic), joins, havocs
+	sink        func(Finding)
+	bufs        [][]Finding // loop-iteration buffers
+	globals     map[*ssa.Global]*Cell
+	gslice      map[*ssa.Global]int64 // constant length of never-reassigned global slices
+	gstrMax     map[*ssa.Global]int64 // longest string literal of a never-reassigned global []string table
+	regStrMax   map[*Region]int64
+	gerr        map[*ssa.Global]bool // sentinel error globals (single init store from errors.New/fmt.Errorf)
+	fieldLen    map[string]int64     // struct fields of slice type only ever assigned make([]T, const)
+	poolType    map[*ssa.Global]types.Type
+	instance    int
+	StepsByFn   map[string]int // debug histogram
 	ModularSeen map[*ssa.Function]bool
 	roMemo      map[roKey]int
 	// LoopFacts: per loop head, whether a ranking function was established in every context analysed.
@@ -171,15 +173,15 @@ type edgeState struct {
 
 type fnExec struct {
 	recEntry map[int]recSnap // self-recursive function: entry length of slices behind pointer parameters
-	in     *Interp
-	fn     *ssa.Function
-	cfg    *core.FuncCFG
-	rpo    []*ssa.BasicBlock
-	rpoIdx map[*ssa.BasicBlock]int
-	loops  []*core.Loop
-	parent map[*core.Loop]*core.Loop
-	outs   []Outcome
-	inst   int
+	in       *Interp
+	fn       *ssa.Function
+	cfg      *core.FuncCFG
+	rpo      []*ssa.BasicBlock
+	rpoIdx   map[*ssa.BasicBlock]int
+	loops    []*core.Loop
+	parent   map[*core.Loop]*core.Loop
+	outs     []Outcome
+	inst     int
 }
 
 type recSnap struct {
@@ -724,6 +726,7 @@ func (x *fnExec) doLoop(l *core.Loop, entry []*State) []edgeState {
 		// candidates per entry state
 		cands := x.genCandidates(l, phis, e)
 		havocCells := map[*Cell]bool{}
+		droppedHyp := map[string]bool{}
 		noGrow := map[*Cell]bool{}
 		lostKnown := map[*Region]map[int64]bool{}
 		havocRegs := map[*Region]bool{}
@@ -762,6 +765,51 @@ func (x *fnExec) doLoop(l *core.Loop, entry []*State) []edgeState {
 						st.h.addFact(sv.Len.Sub(ev.Len))
 					}
 				}
+				// candidate invariants for integer fields of cells: never below the entry value, and
+				// inside the entry value's interval
+				cc := c
+				walkIntLeaves(e.h.mem[c], nv, "", func(path string, ev, hv IntV) {
+					key := fmt.Sprintf("%d/%s", cc.ID, path)
+					if !droppedHyp[key+"/mono"] {
+						st.h.addFact(hv.L.Sub(ev.L))
+					}
+					lo, hi := ev.L.Bounds()
+					if hi < PosInf && !droppedHyp[key+"/hi"] {
+						st.h.addFact(Const(hi).Sub(hv.L))
+					}
+					if lo > NegInf && !droppedHyp[key+"/lo"] {
+						st.h.addFact(hv.L.AddC(-lo))
+					}
+					// growth rate relative to an integer loop counter: L - L0 <= k*(φ - φ0), L - L0 >= k*(φ - φ0)
+					for _, p := range phis {
+						pv, ok1 := st.env[p].(IntV)
+						p0, ok2 := e.env[p].(IntV)
+						if !ok1 || !ok2 {
+							continue
+						}
+						d := pv.L.Sub(p0.L)
+						for _, k := range rateKs {
+							ku := fmt.Sprintf("%s/up%d/%s", key, k, p.Name())
+							if !droppedHyp[ku] {
+								st.h.addFact(d.Scale(k).Sub(hv.L.Sub(ev.L)))
+							}
+							kl := fmt.Sprintf("%s/dn%d/%s", key, k, p.Name())
+							if !droppedHyp[kl] {
+								st.h.addFact(hv.L.Sub(ev.L).Sub(d.Scale(k)))
+							}
+						}
+					}
+					// an index into a sibling array: stays <= the array length
+					for _, n := range arrayLens(cc.T) {
+						k := fmt.Sprintf("%s/le%d", key, n)
+						if _, tried := droppedHyp[k]; !tried {
+							droppedHyp[k] = !e.h.entails(Const(n).Sub(ev.L))
+						}
+						if !droppedHyp[k] {
+							st.h.addFact(Const(n).Sub(hv.L))
+						}
+					}
+				})
 				st.h.mem[c] = nv
 			}
 			for r := range havocRegs {
@@ -837,6 +885,65 @@ func (x *fnExec) doLoop(l *core.Loop, entry []*State) []edgeState {
 						noGrow[c] = true
 						changed = true
 					}
+				}
+				for c := range havocCells {
+					cc := c
+					bv := be.st.h.mem[c]
+					walkIntLeaves(e.h.mem[c], st.h.mem[c], "", func(path string, ev, hv IntV) {
+						key := fmt.Sprintf("%d/%s", cc.ID, path)
+						back, ok := leafAt(bv, path)
+						drop := func(k string) {
+							if !droppedHyp[key+k] {
+								droppedHyp[key+k] = true
+								changed = true
+							}
+						}
+						if !ok {
+							drop("/mono")
+							drop("/hi")
+							drop("/lo")
+							return
+						}
+						if !droppedHyp[key+"/mono"] && !be.st.h.entails(back.L.Sub(hv.L)) {
+							drop("/mono")
+						}
+						lo, hi := ev.L.Bounds()
+						if hi < PosInf && !droppedHyp[key+"/hi"] && !be.st.h.entails(Const(hi).Sub(back.L)) {
+							drop("/hi")
+						}
+						if lo > NegInf && !droppedHyp[key+"/lo"] && !be.st.h.entails(back.L.AddC(-lo)) {
+							drop("/lo")
+						}
+						for _, n := range arrayLens(cc.T) {
+							k := fmt.Sprintf("/le%d", n)
+							if !droppedHyp[key+k] && !be.st.h.entails(Const(n).Sub(back.L)) {
+								drop(k)
+							}
+						}
+						for _, p := range phis {
+							p0, ok2 := e.env[p].(IntV)
+							if _, ok1 := st.env[p].(IntV); !ok1 || !ok2 {
+								continue
+							}
+							pn, ok := x.eval(be.st, p.Edges[idx]).(IntV)
+							for _, k := range rateKs {
+								ku := fmt.Sprintf("/up%d/%s", k, p.Name())
+								kl := fmt.Sprintf("/dn%d/%s", k, p.Name())
+								if !ok {
+									drop(ku)
+									drop(kl)
+									continue
+								}
+								d := pn.L.Sub(p0.L)
+								if !droppedHyp[key+ku] && !be.st.h.entails(d.Scale(k).Sub(back.L.Sub(ev.L))) {
+									drop(ku)
+								}
+								if !droppedHyp[key+kl] && !be.st.h.entails(back.L.Sub(ev.L).Sub(d.Scale(k))) {
+									drop(kl)
+								}
+							}
+						}
+					})
 				}
 				for c, v := range be.st.h.mem {
 					if havocCells[c] || c.ID > startCell {
@@ -1831,6 +1938,11 @@ func (x *fnExec) load(s *State, u *ssa.UnOp) Value {
 			lo, hi := typeRange(t)
 			return IntV{in.elemLin(s.h, p.Reg, p.Off, lo, hi)}
 		}
+		if m, ok := in.regStrMax[p.Reg]; ok && isStringType(t) {
+			// element of a constant table of strings: its length is bounded by the longest literal
+			ln := in.Atoms.Fresh("len:tabstr", 0, m)
+			return SliceV{Reg: in.newRegion("tabstr", false), Len: AtomLin(ln), Cap: AtomLin(ln), IsString: true}
+		}
 		return in.unknownOf(t, "elem", false)
 	}
 	x.checkNil(s, u, p, "load through possibly-nil pointer")
@@ -2514,6 +2626,12 @@ func (in *Interp) globalInit(g *ssa.Global) Value {
 	t := g.Type().Underlying().(*types.Pointer).Elem()
 	if n, ok := in.gslice[g]; ok {
 		r := in.newRegion("global:"+g.Name(), false)
+		if m, ok := in.gstrMax[g]; ok {
+			if in.regStrMax == nil {
+				in.regStrMax = map[*Region]int64{}
+			}
+			in.regStrMax[r] = m
+		}
 		return SliceV{Reg: r, Len: Const(n), Cap: Const(n)}
 	}
 	if types.Identical(t, types.Universe.Lookup("error").Type()) && !core.IsLibPath(pkgPathOf(g)) && g.Object() != nil && g.Object().Exported() {
@@ -2526,7 +2644,6 @@ func (in *Interp) globalInit(g *ssa.Global) Value {
 	}
 	return in.unknownOf(t, "global:"+g.Name(), false)
 }
-
 
 func pkgPathOf(g *ssa.Global) string {
 	if g.Pkg != nil && g.Pkg.Pkg != nil {
@@ -2620,6 +2737,38 @@ func (in *Interp) scanGlobals() {
 			if al, ok := sl.X.(*ssa.Alloc); ok {
 				if at, ok := al.Type().Underlying().(*types.Pointer).Elem().Underlying().(*types.Array); ok {
 					in.gslice[g] = at.Len()
+					if isStringType(at.Elem()) && al.Referrers() != nil {
+						// every element store is a constant string: remember the longest
+						max, all, n := int64(0), true, int64(0)
+						for _, ref := range *al.Referrers() {
+							ia, ok := ref.(*ssa.IndexAddr)
+							if !ok {
+								continue
+							}
+							if ia.Referrers() == nil {
+								continue
+							}
+							for _, rr := range *ia.Referrers() {
+								if es, ok := rr.(*ssa.Store); ok && es.Addr == ssa.Value(ia) {
+									cv, ok := es.Val.(*ssa.Const)
+									if !ok || cv.Value == nil || cv.Value.Kind() != constant.String {
+										all = false
+										continue
+									}
+									n++
+									if l := int64(len(constant.StringVal(cv.Value))); l > max {
+										max = l
+									}
+								}
+							}
+						}
+						if all && n == at.Len() {
+							if in.gstrMax == nil {
+								in.gstrMax = map[*ssa.Global]int64{}
+							}
+							in.gstrMax[g] = max
+						}
+					}
 				}
 			}
 		}
@@ -2702,3 +2851,53 @@ func (in *Interp) scanGlobals() {
 		}
 	}
 }
+
+// walkIntLeaves visits the integer leaves that two values of the same shape have in common.
+func walkIntLeaves(a, b Value, path string, f func(path string, a, b IntV)) {
+	switch av := a.(type) {
+	case IntV:
+		if bv, ok := b.(IntV); ok {
+			f(path, av, bv)
+		}
+	case StructV:
+		bv, ok := b.(StructV)
+		if !ok || len(bv.F) != len(av.F) {
+			return
+		}
+		for i := range av.F {
+			walkIntLeaves(av.F[i], bv.F[i], fmt.Sprintf("%s.%d", path, i), f)
+		}
+	}
+}
+
+func leafAt(v Value, path string) (IntV, bool) {
+	var out IntV
+	found := false
+	walkIntLeaves(v, v, "", func(p string, a, _ IntV) {
+		if p == path {
+			out, found = a, true
+		}
+	})
+	return out, found
+}
+
+// arrayLens returns the lengths of the array fields of a struct type (candidates for index bounds).
+func arrayLens(t types.Type) []int64 {
+	if t == nil {
+		return nil
+	}
+	st, ok := t.Underlying().(*types.Struct)
+	if !ok {
+		return nil
+	}
+	var out []int64
+	for i := 0; i < st.NumFields(); i++ {
+		if at, ok := st.Field(i).Type().Underlying().(*types.Array); ok {
+			out = append(out, at.Len())
+		}
+	}
+	return out
+}
+
+// rateKs: the per-iteration growth rates tried for integer cell fields relative to loop counters.
+var rateKs = []int64{1, 2, 3, 4, 5, 6, 8}
